@@ -281,10 +281,21 @@ def compare(ctx, case, out, mos):
         if [list(r) for r in e["rank_matrix"]] != rm:
             ctx.disagree(case, {"what": "multimoora.rank_matrix", "impl": e["rank_matrix"], "model": rm})
             return
+        # independent oracle for the documented pairwise-dominance count
+        want = [0] * n
+        for a in range(n):
+            for b in range(a + 1, n):
+                ra, rb = rm[a], rm[b]
+                if all(x != y for x, y in zip(ra, rb)):
+                    wa = sum(x < y for x, y in zip(ra, rb))
+                    wb = sum(y < x for x, y in zip(ra, rb))
+                    want[a if wa > wb else b] += 1
+        if [int(s) for s in e["score"]] != want:
+            ctx.oracle_fail(case, {"oracle": "MultiMOORA score is not the documented pairwise count",
+                                   "impl": e["score"], "want": want})
         sc = ctx.model.one("mm_score", e["rank_matrix"])
         if [Fraction(s) for s in e["score"]] != [Fraction(s) for s in sc]:
             ctx.disagree(case, {"what": "multimoora.score", "impl": e["score"], "model": sc})
-            # direct oracle: documented pairwise count
             return
         fr = ctx.model.one("rank", (True, e["score"]))
         if list(ranks) != list(fr):
@@ -299,18 +310,6 @@ def compare(ctx, case, out, mos):
                      [abs(s) * U * 8 + Fraction(1, 10 ** 300) for s in ps], ex)
         fx, fm = fmf_exact(mos[0])
         check_scores(ctx, case, "multimoora.fmf_score", e["fmf_score"], fx, fm, False)
-        # independent oracle for the documented pairwise-dominance count
-        want = [0] * n
-        for a in range(n):
-            for b in range(a + 1, n):
-                ra, rb = rm[a], rm[b]
-                if all(x != y for x, y in zip(ra, rb)):
-                    wa = sum(x < y for x, y in zip(ra, rb))
-                    wb = sum(y < x for x, y in zip(ra, rb))
-                    want[a if wa > wb else b] += 1
-        if [int(s) for s in e["score"]] != want:
-            ctx.oracle_fail(case, {"oracle": "MultiMOORA score is not the documented pairwise count",
-                                   "impl": e["score"], "want": want})
 
 
 def malformed(rng, name):
@@ -324,7 +323,9 @@ def malformed(rng, name):
     elif kind == "zero":
         c["matrix"][rng.randrange(n)][rng.randrange(m)] = 0.0
     else:
-        c["matrix"][rng.randrange(n)][rng.randrange(m)] = -rng.choice([1.0, 0.5, 2.0])
+        # any magnitude: a "negative" is negative however small (and -0.0 is not negative)
+        c["matrix"][rng.randrange(n)][rng.randrange(m)] = -rng.choice([1.0, 0.5, 2.0, 1e-3, 1e-7, 1e-9, 1e-12, 1e-100,
+                                                                      5e-324, 1e9])
     c["malformed"] = kind
     return c
 
